@@ -202,7 +202,37 @@ impl Turn {
         match &self.fault {
             Fault::Http { status, with_body, echo } => {
                 let body = if *with_body {
-                    br#"{"error":{"message":"scripted failure","type":"invalid_request_error"}}"#.to_vec()
+                    // hostile error bodies, derived deterministically from the turn's seeded parameters: short JSON,
+                    // long text whose multi-byte characters straddle every plausible truncation limit, invalid
+                    // UTF-8, an HTML page
+                    let mut h = vec![(*status >> 8) as u8, *status as u8];
+                    h.extend_from_slice(&self.pause_us.to_le_bytes());
+                    for c in self.chunks.iter().take(8) {
+                        h.extend_from_slice(&(*c as u64).to_le_bytes());
+                    }
+                    h.extend_from_slice(&(self.body.len() as u64).to_le_bytes());
+                    let mut rng = crate::prng::Rng::new(crate::prng::fnv(&h));
+                    match rng.below(6) {
+                        0 | 1 => br#"{"error":{"message":"scripted failure","type":"invalid_request_error"}}"#.to_vec(),
+                        2 | 3 => {
+                            let limits = [64usize, 128, 255, 256, 500, 512, 1000, 1023, 1024, 1025, 2000, 2048, 4096, 8191, 8192, 10000, 16384];
+                            let target = limits[rng.usize(limits.len())];
+                            let lead = target.saturating_sub(rng.usize(5));
+                            let mut b = "x".repeat(lead).into_bytes();
+                            let fill = ["é", "中", "🚀", "ß→", "e\u{301}"][rng.usize(5)];
+                            while b.len() < target + 64 {
+                                b.extend_from_slice(fill.as_bytes());
+                            }
+                            b
+                        }
+                        4 => {
+                            let mut b = br#"{"error":"bad bytes: "#.to_vec();
+                            b.extend_from_slice(&[0xff, 0xfe, 0xc3, 0x28, 0xe2, 0x82, 0xf0, 0x9f]);
+                            b.extend_from_slice(&rng.bytes(200));
+                            b
+                        }
+                        _ => format!("<html><body><h1>{} Bad Gateway</h1>{}</body></html>", status, "<p>ü</p>".repeat(300)).into_bytes(),
+                    }
                 } else {
                     Vec::new()
                 };
